@@ -33,6 +33,8 @@ class C12(scen.WorldProp):
                 "Wheatley.C12.memory_bounded",
                 "Wheatley.C12.forgets_oldest",
                 "Wheatley.C12.look_to_forgets_data",
+                "Wheatley.C12.memInvariant",
+                "Wheatley.C12.memory_stays_bounded",
                 "Wheatley.C12.centred_evaluation_is_the_same_fit",
                 "Wheatley.det_pos",
                 "Wheatley.regress_eq",
@@ -43,7 +45,9 @@ class C12(scen.WorldProp):
                   "lying on it (any positive weights, two distinct blows); the determinant is a sum of squares, "
                   "positive for positive weights; one update moves the line to lerp(regression, line, inertia), so on "
                   "collinear data the error to the humans' line is multiplied by the inertia (0: exact at once; "
-                  "<= 1/2: geometric) and a line the data already lie on is a fixed point for every inertia. "
+                  "<= 1/2: geometric) and a line the data already lie on is a fixed point for every inertia; system "
+                  "level: in every state of every run on any events the regression holds fewer than max_bells "
+                  "strikes (the memory turns over). "
                   "correspondence: calculate_regression (numpy) vs the closed form on every regression of every run; "
                   "timed keep-going sessions over tempo ratio 0.93..1.07 x human sets >= N/3 x inertia 0..0.5 x towers "
                   "4..16 x data-set sizes 5..30, human or Wheatley leading, tempo changes of 2-5 %; two-touch sessions at two tempi each led by a human (look_to_forgets_data); oracle: distance of "
